@@ -22,8 +22,11 @@ def run(rep):
         (2, 1, 7, False), (3, 1, 9, False), (3, 2, 9, False), (4, 2, 11, False), (4, 3, 10, False), (5, 2, 11, False), (5, 3, 10, False),
         (6, 3, 9, False), (7, 3, 9, False), (4, 2, 6, True), (5, 3, 6, True)]
     ev = nt = 0
-    for n, h, m, prio in cfgs:
-        out = sb.run_config(rep, n, h, m, prio, prio_vals=(1,), max_batch=1, invs=sb.INV_C04 + (sb.INV_C08 if prio else []))
+    from .. import par
+
+    jobs = [(n, h, m, prio, (1,), 1, tuple(sb.INV_C04 + (sb.INV_C08 if prio else [])), "", True, rep.seed, 4) for n, h, m, prio in cfgs]
+    for o in par.pmap(sb.config_job, jobs, procs=4):
+        out = sb.merge(rep, o)
         if out:
             ev += out[0]
             nt += out[1]
